@@ -22,6 +22,8 @@ PROPERTY = "C01"
 RUNS = {"quick": 24_000, "thorough": 30_000_000}
 WALL = {"quick": 50, "thorough": 1500}
 BATCH = {"quick": 300, "thorough": 2000}
+CPU_LIMIT_S = 30          # a generated program is a few hundred deliveries: milliseconds of CPU
+TIMEOUT_SIG = "run-does-not-terminate"
 RULE = (
     "each case is a generated script program (1-5 entities, handlers returning none/one/list/generator, "
     "0-24 initial events drawn from <=4 distinct timestamps, daemon/cancelled/past/crashed mixes, end_time "
